@@ -565,8 +565,8 @@ class AnsiString:
               are not internally modified after creation.
         '''
         if isinstance(val, int):
-            st = val
-            en = val + 1
+            st = self._slice_val_to_idx(val, 0)
+            en = st + 1
         elif isinstance(val, slice):
             if val.step is not None and val.step != 1:
                 raise ValueError('Step other than 1 not supported')
